@@ -16,7 +16,7 @@ F(n, req) == [kind |-> "field", name |-> n, required |-> req, excluded |-> n \in
 G(n, req) == [kind |-> "group", name |-> n, required |-> req, excluded |-> FALSE, decl |-> n \o "Grp", fixType |-> "", goType |-> "*" \o n \o "Grp"]
 C(n, req) == [kind |-> "component", name |-> n, required |-> req, excluded |-> FALSE, decl |-> n, fixType |-> "", goType |-> "*" \o n]
 
-Base == [fields |-> << <<"BeginString", "8">>, <<"BodyLength", "9">>, <<"MsgType", "35">>, <<"CheckSum", "10">>,
+Base == [enums |-> <<>>, fields |-> << <<"BeginString", "8">>, <<"BodyLength", "9">>, <<"MsgType", "35">>, <<"CheckSum", "10">>,
                        <<"A", "1">>, <<"B", "2">>, <<"NoG", "3">>, <<"D", "4">> >>,
          owners |-> << [name |-> "Header", kind |-> "header", msgType |-> "", skipExcluded |-> TRUE,
                         members |-> <<F("BeginString", TRUE), F("BodyLength", TRUE), F("MsgType", TRUE), F("A", TRUE), G("NoG", FALSE)>>],
